@@ -61,6 +61,16 @@ structure Oracle.Certified (O : Oracle) : Prop where
   inf : ∀ obj cs, O.lp obj cs = .infeasible → ¬ ∃ z, TL.holds cs z
   unb : ∀ obj cs, O.lp obj cs = .unbounded → (∃ z, TL.holds cs z) ∧ ∀ M, ∃ z, TL.holds cs z ∧ M < evalL obj z
 
+/-- a weaker oracle class that is faithful to what HiGHS does after presolve: `infeasible` may also be answered for a
+    FEASIBLE problem whose objective is unbounded ("infeasible or unbounded"); with a zero objective it still means
+    infeasible.  Every `Certified` oracle is `PresolveAmbiguous`. -/
+structure Oracle.PresolveAmbiguous (O : Oracle) : Prop where
+  opt : ∀ obj cs m x, O.lp obj cs = .optimal m x →
+          TL.holds cs (valOf x) ∧ evalL obj (valOf x) = m ∧ ∀ z, TL.holds cs z → evalL obj z ≤ m
+  inf : ∀ obj cs, O.lp obj cs = .infeasible → (¬ ∃ z, TL.holds cs z) ∨ ((∃ z, TL.holds cs z) ∧ ∀ M, ∃ z, TL.holds cs z ∧ M < evalL obj z)
+  inf0 : ∀ cs, O.lp [] cs = .infeasible → ¬ ∃ z, TL.holds cs z
+  unb : ∀ obj cs, O.lp obj cs = .unbounded → (∃ z, TL.holds cs z) ∧ ∀ M, ∃ z, TL.holds cs z ∧ M < evalL obj z
+
 def checkedOracle (solver : Lin → TL → LPAns) : Oracle := ⟨fun obj cs => checkAns obj cs (solver obj cs)⟩
 
 /-- `linprog` minimises `c·z`; the code passes `c = -objective` and reads `-res.fun`.  The model speaks of the
